@@ -104,7 +104,7 @@ impl B {
     }
 }
 
-pub const ALL_PROPS: &[&str] = &["C01", "C02", "C03", "C04", "C05", "C06", "C07", "C08", "C09", "C10", "C11", "C12", "C13", "C14", "C15", "C17", "C18", "C20"];
+pub const ALL_PROPS: &[&str] = &["C01", "C02", "C03", "C04", "C05", "C06", "C07", "C08", "C09", "C10", "C11", "C12", "C13", "C14", "C15", "C16", "C17", "C18", "C20"];
 
 /// class for the output-elision differential (C04): extended class plus the eliding forms
 fn k04() -> en::Class {
@@ -363,6 +363,7 @@ pub fn units(prop: &str, tier: Tier) -> Option<Vec<Unit>> {
             let alarm = ACC | VAL | CXO;
             vec![class("kctx", &en::k_ctx(), pick(4, 4)).len(pick(4, 5)).cfg(CfgId::RichCx).probes(CTX).alarm(alarm).unit()]
         }
+        "C16" => ["nested-wide", "nested-deep"].into_iter().map(|n| Unit::Custom { name: n.to_string(), run: Box::new(move |cx| eng_nested::run(n, tier, cx)) }).collect(),
         "C17" => {
             let gs = en::k_core().upto(pick(3, 3));
             let wl: &dyn Fn(G) -> G = &wrap_label;
